@@ -254,3 +254,12 @@ def g1(ctx):
 
 
 RULES.append(g1)
+
+
+@rule("K8", cfgs="explanations", doc="proof-registry keys do not depend on how slot names sort: the key renaming is injective (C07.K8)")
+def k8(ctx):
+    from . import c07
+    c07.k8(ctx)
+
+
+RULES.append(k8)
